@@ -7,7 +7,7 @@ slots whose contents are replaced for ever, optional transient spikes of live da
 every object kind; caught injected failures inside the loop body (error paths are where a root handle is most
 likely to be leaked). Invariants checked at every allocation event (I1 byte bound, I2 accounting) and over the
 recorded history (I3 object counts N vs 2N iterations, I4 rooted objects N vs 2N, I5 pacing liveness, I6 the number of
-fiber objects alive at quiescence equals the number the program can still reach, I7 a second interpreter created on the same
+fiber objects alive at quiescence equals the number the program can still reach, I8 rounds of reset + re-run do not accumulate objects, I7 a second interpreter created on the same
 thread after the first was dropped ends with the same live objects).
 """
 import json
@@ -231,10 +231,13 @@ class C16:
         faults = fault_plan(rng, ir, 2 * ir["n"])
         return {"ir": ir, "faults": faults}
 
-    def run_one(self, ctx, sc, n, mode, second_vm=False):
+    def run_one(self, ctx, sc, n, mode, second_vm=False, reset_rounds=0):
         src = render(sc["ir"], n)
         cfg = {"gc": {"mode": mode, "quarantine": False, "monitor": True}, "max_events": 64}
         progs = [{"kind": "snippet", "source": src}]
+        for _ in range(reset_rounds):
+            # the host resets its interpreter and runs the same program again
+            progs += [{"kind": "reset"}, {"kind": "snippet", "source": src}]
         if second_vm:
             # the same program again on a second interpreter created on the same thread after the first one was dropped
             progs += [{"kind": "newvm"}, {"kind": "snippet", "source": src}]
@@ -317,6 +320,36 @@ class C16:
                         res["violation"] = {"class": "dropped-interpreter-leaves-objects", "msg": "I7: %s: %d objects (%d rooted) at quiescence on a first interpreter, %d (%d rooted) on a second one created after the first was dropped" % (
                             t, a[0], a[2], bb[0], bb[2])}
                         return res
+        # I8: rounds of reset + re-run on one interpreter do not accumulate objects: the second and the third round end with
+        # the same live objects (per type; the first round may differ from them, it starts from the bootstrap)
+        if sc.get("reset_rounds", stable_hash(ir) % 3 == 1):
+            src, h = self.run_one(ctx, sc, n, "native", reset_rounds=2)
+            stats.inc("executions")
+            stats.inc("reset_round_runs")
+            po = process_outcome(h)
+            if po:
+                res["violation"] = {"class": po[0], "msg": "[reset rounds] %s" % po[1]}
+                return res
+            per_round = []
+            for pi in (2, 4):
+                st_ = None
+                if pi < len(h["programs"]):
+                    for e_ in h["programs"][pi]["events"]:
+                        if isinstance(e_, list) and e_ and isinstance(e_[0], dict) and "stats" in e_[0]:
+                            st_ = e_[0]["stats"]
+                per_round.append(st_)
+            if per_round[0] is None or per_round[1] is None:
+                res["violation"] = {"class": "workload-error", "msg": "[reset rounds] a round after a reset did not reach its end: %s" % json.dumps(
+                    [p_.get("outcome") for p_ in h["programs"]])[:300]}
+                return res
+            for t in sorted(set(per_round[0]) | set(per_round[1])):
+                if excluded(t):
+                    continue
+                a, bb = per_round[0].get(t, [0, 0, 0]), per_round[1].get(t, [0, 0, 0])
+                if a[0] != bb[0] or a[2] != bb[2]:
+                    res["violation"] = {"class": "reset-rounds-accumulate-objects", "msg": "I8: %s: %d objects (%d rooted) at quiescence in the second round of reset + run, %d (%d rooted) in the third" % (
+                        t, a[0], a[2], bb[0], bb[2])}
+                    return res
         # checksum must not depend on the collector (cheap guard against "bounded because live data was freed")
         if checksum_of(hs["N"]) != checksum_of(hs["never"]):
             res["violation"] = {"class": "checksum", "msg": "program result under native pacing %s differs from never-collect %s" % (
